@@ -690,8 +690,7 @@ theorem unit_behind_content_counterexample :
 set_option maxRecDepth 8192 in
 /-- the types behind a `Content` buffer do round-trip when neither `char` nor `()` is involved:
     a flattened struct, an internally tagged, an adjacently tagged and an untagged enum
-    (machine-checked instances; the general statement for these representations is
-    `roundtrip_statement`). -/
+    (machine-checked instances of `roundtrip_content`). -/
 theorem content_roundtrip_examples :
     (let t : SType := .flat [[0x61]] [.int .u8] [[0x62], [0x63]] [.int .u16, .str] [[0x64]] [.bool]
      let v : SVal := .map false [.str [0x61], .int .u8 1, .str [0x62], .int .u16 500, .str [0x63], .str [0x68],
@@ -804,19 +803,6 @@ theorem roundtrip_statement_false : ¬ roundtrip_statement := by
   have h1 := h flatCharT flatCharV [] flatCharHasTC
   rw [List.append_nil, char_behind_content_counterexample.2] at h1
   cases h1
-
-/-- **what is proved of the full statement**: it holds for every type that is read directly from
-    the wire (`HasTC.plain`, i.e. everything except the four `Content`-buffered representations:
-    all primitives, strings, byte buffers, options, unit, newtype / tuple / struct types,
-    sequences and maps of known and unknown length, tuples, externally tagged enums with unit,
-    newtype, tuple and struct variants, arbitrarily nested, of unbounded size).
-    Missing: the general proof for `flatten` / internally tagged / adjacently tagged / untagged
-    values without `char` and `()` behind the buffer; those representations are covered by the
-    machine-checked instances `content_roundtrip_examples`, by the model-vs-code correspondence
-    run, and the two classes in which they fail are pinned down by the counterexamples above. -/
-theorem roundtrip_partial (t : SType) (v : SVal) (rest : Bytes) (h : HasT v t) :
-    de t (ser v ++ rest) = .ok v rest := roundtrip_plain h rest
-
 
 /-! ## 5. alternative framings on input -/
 
@@ -978,6 +964,7 @@ def cgood : SType → Bool → Bool
   | .tupleStruct ts, own => cgoods ts own
   | .map _ k v, own => cgood k own && cgood v own
   | .struct _ ts, own => cgoods ts own
+  | .structS .., _ => false
   | .enum _ vs, own => cgoodVs vs own
   | .flat .., _ => false
   | .itag .., _ => false
@@ -991,6 +978,7 @@ def cgoodV : VShape → Bool → Bool
   | .newtype t, own => cgood t own
   | .tuple ts, own => cgoods ts own
   | .struct _ ts, own => cgoods ts own
+  | .structS .., _ => false
 def cgoodVs : List VShape → Bool → Bool
   | [], _ => true
   | s :: ss, own => cgoodV s own && cgoodVs ss own
@@ -1559,5 +1547,452 @@ theorem itag_rt (tag : Bytes) (names : List Bytes) (vs : List VShape) (n : Bytes
   rw [Dec.bind_ok _ _ _ _ _ hml]
   dsimp only
   rw [hc]; rfl
+
+
+/-! ### `#[serde(flatten)]` -/
+
+theorem str_head (n : Bytes) (h : nameOk n = true) : ∃ b tl, Enc.str n = b :: tl ∧ b ≠ 0xff := by
+  have hok : vok (.str n) = true := by simpa [vok] using h
+  have := encW_head (toW (.str n)) (toW_valid _ hok)
+  rw [← ser_eq_encW _ hok] at this
+  exact this
+
+/-- the directly-read fields found, in wire order -/
+def dPairs (direct : List FieldDec) : List Bytes → List SVal → Found
+  | n :: ns, v :: vs => if (findField direct n).isSome then (n, v) :: dPairs direct ns vs else dPairs direct ns vs
+  | _, _ => []
+/-- the other entries, buffered, in wire order -/
+def cColl (direct : List FieldDec) : List Bytes → List SVal → List Content
+  | n :: ns, v :: vs => if (findField direct n).isSome then cColl direct ns vs else .str n :: cv v :: cColl direct ns vs
+  | _, _ => []
+
+def FlatRt (direct : List FieldDec) : List Bytes → List SVal → Prop
+  | n :: ns, v :: vs =>
+    (∀ f, findField direct n = some f → ∀ r, f.dec (ser v ++ r) = .ok v r) ∧
+    (findField direct n = none → vok v = true) ∧ FlatRt direct ns vs
+  | [], [] => True
+  | _, _ => False
+
+theorem flatLoop_rt (direct : List FieldDec) : (ns : List Bytes) → (vs : List SVal) → FlatRt direct ns vs →
+    ns.Nodup → (∀ n ∈ ns, nameOk n = true) → ∀ (fuel : Nat) (fd : Found) (acc : List Content) (rest : Bytes),
+    ns.length + 1 ≤ fuel → (∀ n ∈ ns, fd.has n = false) →
+    loopI (flatStep direct) fuel (fd, acc) (sers (mkKvs ns vs) ++ 0xff :: rest) =
+      .ok (fd ++ dPairs direct ns vs, acc ++ cColl direct ns vs) rest
+  | [], [], _, _, _, fuel, fd, acc, rest, hf, _ => by
+    obtain ⟨f, rfl⟩ : ∃ f, fuel = f + 1 := ⟨fuel - 1, by omega⟩
+    simp [loopI, mkKvs, sers, dPairs, cColl, Dec.bind_run]
+  | [], _ :: _, h, _, _, _, _, _, _, _, _ => by simp [FlatRt] at h
+  | _ :: _, [], h, _, _, _, _, _, _, _, _ => by simp [FlatRt] at h
+  | n :: ns, v :: vs, hrt, hnd, hok, fuel, fd, acc, rest, hf, hfresh => by
+    obtain ⟨fu, rfl⟩ : ∃ f, fuel = f + 1 := ⟨fuel - 1, by omega⟩
+    simp only [FlatRt] at hrt
+    simp only [List.nodup_cons] at hnd
+    have hn := hok n (by simp)
+    have hn' := hn
+    simp only [nameOk, Bool.and_eq_true, decide_eq_true_eq] at hn'
+    obtain ⟨b, tl, hb, hne⟩ := str_head n hn
+    have hcur : current (Enc.str n ++ (ser v ++ (sers (mkKvs ns vs) ++ 0xff :: rest))) =
+        .ok b (Enc.str n ++ (ser v ++ (sers (mkKvs ns vs) ++ 0xff :: rest))) := by rw [hb]; rfl
+    have hne' : (b == 0xff) = false := by simpa using hne
+    have hkey := str_rt n (ser v ++ (sers (mkKvs ns vs) ++ 0xff :: rest)) hn'.1 hn'.2
+    simp only [loopI, mkKvs, sers, ser, List.append_assoc]
+    rw [Dec.bind_ok _ _ _ _ _ hcur]
+    simp only [hne', Bool.false_eq_true, if_false]
+    cases hfind : findField direct n with
+    | none =>
+      have hstep : flatStep direct (fd, acc) (Enc.str n ++ (ser v ++ (sers (mkKvs ns vs) ++ 0xff :: rest))) =
+          .ok (fd, acc ++ [.str n, cv v]) (sers (mkKvs ns vs) ++ 0xff :: rest) := by
+        unfold flatStep
+        rw [Dec.bind_ok _ _ _ _ _ hkey]
+        simp only [hfind]
+        rw [Dec.bind_ok _ _ _ _ _ (de_any_on_ser v (hrt.2.1 hfind) _)]; rfl
+      have ih := flatLoop_rt direct ns vs hrt.2.2 hnd.2 (fun m hm => hok m (by simp [hm])) fu fd (acc ++ [.str n, cv v]) rest
+        (by simp at hf; omega) (fun m hm => hfresh m (by simp [hm]))
+      rw [Dec.bind_ok _ _ _ _ _ hstep, ih]
+      simp [dPairs, cColl, hfind]
+    | some f =>
+      have hstep : flatStep direct (fd, acc) (Enc.str n ++ (ser v ++ (sers (mkKvs ns vs) ++ 0xff :: rest))) =
+          .ok (fd ++ [(n, v)], acc) (sers (mkKvs ns vs) ++ 0xff :: rest) := by
+        unfold flatStep
+        rw [Dec.bind_ok _ _ _ _ _ hkey]
+        simp only [hfind, hfresh n (by simp), Bool.false_eq_true, if_false]
+        rw [Dec.bind_ok _ _ _ _ _ (hrt.1 f hfind _)]; rfl
+      have ih := flatLoop_rt direct ns vs hrt.2.2 hnd.2 (fun m hm => hok m (by simp [hm])) fu (fd ++ [(n, v)]) acc rest
+        (by simp at hf; omega) (by
+          intro m hm
+          rw [has_append, hfresh m (by simp [hm])]
+          have : n ≠ m := fun e => hnd.1 (e ▸ hm)
+          simpa using this)
+      rw [Dec.bind_ok _ _ _ _ _ hstep, ih]
+      simp [dPairs, cColl, hfind]
+
+/-! list plumbing for the three segments -/
+
+theorem mkKvs_append : (a : List Bytes) → (va : List SVal) → (b : List Bytes) → (vb : List SVal) → a.length = va.length →
+    mkKvs (a ++ b) (va ++ vb) = mkKvs a va ++ mkKvs b vb
+  | [], [], _, _, _ => rfl
+  | [], _ :: _, _, _, h => by simp at h
+  | _ :: _, [], _, _, h => by simp at h
+  | n :: a, v :: va, b, vb, h => by simp [mkKvs, mkKvs_append a va b vb (by simpa using h)]
+
+theorem dPairs_append (direct : List FieldDec) : (a : List Bytes) → (va : List SVal) → (b : List Bytes) → (vb : List SVal) →
+    a.length = va.length → dPairs direct (a ++ b) (va ++ vb) = dPairs direct a va ++ dPairs direct b vb
+  | [], [], _, _, _ => rfl
+  | [], _ :: _, _, _, h => by simp at h
+  | _ :: _, [], _, _, h => by simp at h
+  | n :: a, v :: va, b, vb, h => by
+    have ih := dPairs_append direct a va b vb (by simpa using h)
+    simp only [List.cons_append, dPairs]
+    split <;> simp [ih]
+
+theorem cColl_append (direct : List FieldDec) : (a : List Bytes) → (va : List SVal) → (b : List Bytes) → (vb : List SVal) →
+    a.length = va.length → cColl direct (a ++ b) (va ++ vb) = cColl direct a va ++ cColl direct b vb
+  | [], [], _, _, _ => rfl
+  | [], _ :: _, _, _, h => by simp at h
+  | _ :: _, [], _, _, h => by simp at h
+  | n :: a, v :: va, b, vb, h => by
+    have ih := cColl_append direct a va b vb (by simpa using h)
+    simp only [List.cons_append, cColl]
+    split <;> simp [ih]
+
+theorem dPairs_direct (direct : List FieldDec) : (a : List Bytes) → (va : List SVal) →
+    (∀ n ∈ a, (findField direct n).isSome = true) → dPairs direct a va = pairsOf a va ∧ cColl direct a va = []
+  | [], _, _ => by simp [dPairs, cColl, pairsOf]
+  | _ :: _, [], _ => by simp [dPairs, cColl, pairsOf]
+  | n :: a, v :: va, h => by
+    have ih := dPairs_direct direct a va (fun m hm => h m (by simp [hm]))
+    simp [dPairs, cColl, pairsOf, h n (by simp), ih.1, ih.2]
+
+theorem dPairs_other (direct : List FieldDec) : (a : List Bytes) → (va : List SVal) →
+    (∀ n ∈ a, findField direct n = none) → dPairs direct a va = [] ∧ cColl direct a va = cKvs a va
+  | [], _, _ => by simp [dPairs, cColl, cKvs]
+  | _ :: _, [], _ => by simp [dPairs, cColl, cKvs]
+  | n :: a, v :: va, h => by
+    have ih := dPairs_other direct a va (fun m hm => h m (by simp [hm]))
+    simp [dPairs, cColl, cKvs, h n (by simp), ih.1, ih.2]
+
+theorem flatRt_append (direct : List FieldDec) : (a : List Bytes) → (va : List SVal) → (b : List Bytes) → (vb : List SVal) →
+    FlatRt direct a va → FlatRt direct b vb → FlatRt direct (a ++ b) (va ++ vb)
+  | [], [], _, _, _, hb => hb
+  | [], _ :: _, _, _, h, _ => by simp [FlatRt] at h
+  | _ :: _, [], _, _, h, _ => by simp [FlatRt] at h
+  | n :: a, v :: va, b, vb, ha, hb => by
+    simp only [FlatRt] at ha
+    simp only [List.cons_append, FlatRt]
+    exact ⟨ha.1, ha.2.1, flatRt_append direct a va b vb ha.2.2 hb⟩
+
+theorem findField_append (a b : List FieldDec) (k : Bytes) :
+    findField (a ++ b) k = (match findField a k with | some f => some f | none => findField b k) := by
+  induction a with
+  | nil => simp [findField]
+  | cons f a ih =>
+    rw [List.cons_append, findField_cons, findField_cons]
+    split
+    · rfl
+    · exact ih
+
+/-- the fields of one segment are found in the combined list of direct fields. -/
+theorem flatRt_direct (direct seg : List FieldDec) (hnd : (direct.map (·.name)).Nodup) (hsub : ∀ f ∈ seg, f ∈ direct) :
+    (vs : List SVal) → AllRtD (seg.map (·.dec)) vs → FlatRt direct (seg.map (·.name)) vs := by
+  induction seg with
+  | nil => intro vs h; cases vs <;> simp_all [AllRtD, FlatRt]
+  | cons f seg ih =>
+    intro vs h
+    cases vs with
+    | nil => simp [AllRtD] at h
+    | cons v vs =>
+      simp only [List.map_cons, AllRtD] at h
+      have hfind := findField_mem direct hnd f (hsub f (by simp))
+      simp only [List.map_cons, FlatRt]
+      refine ⟨?_, ?_, ih (fun g hg => hsub g (by simp [hg])) vs h.2⟩
+      · intro g hg r; rw [hfind] at hg; cases hg; exact h.1 r
+      · intro hg; rw [hfind] at hg; cases hg
+
+theorem flatRt_other (direct : List FieldDec) : (ns : List Bytes) → (vs : List SVal) → ns.length = vs.length →
+    (∀ n ∈ ns, findField direct n = none) → oks vs = true → FlatRt direct ns vs
+  | [], [], _, _, _ => by simp [FlatRt]
+  | [], _ :: _, h, _, _ => by simp at h
+  | _ :: _, [], h, _, _ => by simp at h
+  | n :: ns, v :: vs, hl, hnone, hoks => by
+    simp only [oks, Bool.and_eq_true] at hoks
+    simp only [FlatRt]
+    refine ⟨?_, fun _ => hoks.1, flatRt_other direct ns vs (by simpa using hl) (fun m hm => hnone m (by simp [hm])) hoks.2⟩
+    intro f hf; rw [hnone n (by simp)] at hf; cases hf
+
+/-- `finishFields` with further entries before and after the segment's own. -/
+theorem finish_rt' : (suf : List FieldDec) → (vs : List SVal) → suf.length = vs.length →
+    (suf.map (·.name)).Nodup → ∀ (pre post : Found), (∀ f ∈ suf, pre.has f.name = false) →
+    finishFields suf (pre ++ pairsOf (suf.map (·.name)) vs ++ post) = some (mkKvs (suf.map (·.name)) vs)
+  | [], [], _, _, _, _, _ => by simp [finishFields, mkKvs]
+  | [], _ :: _, h, _, _, _, _ => by simp at h
+  | _ :: _, [], h, _, _, _, _ => by simp at h
+  | f :: suf, v :: vs, hl, hnd, pre, post, hpre => by
+    simp only [List.map_cons, List.nodup_cons] at hnd
+    have h1 : pre ++ pairsOf (f.name :: suf.map (·.name)) (v :: vs) ++ post =
+        (pre ++ [(f.name, v)]) ++ (pairsOf (suf.map (·.name)) vs ++ post) := by simp [pairsOf]
+    have hget : Found.get? (pre ++ pairsOf (f.name :: suf.map (·.name)) (v :: vs) ++ post) f.name = some v := by
+      rw [h1]
+      have h2 : Found.get? (pre ++ [(f.name, v)]) f.name = some v := by
+        rw [get?_append_of_has_false pre f.name f.name v (hpre f (by simp))]; simp
+      have h3 : Found.has (pre ++ [(f.name, v)]) f.name = true := by rw [has_append]; simp
+      rw [get?_append_of_has _ _ _ h3, h2]
+    have ih := finish_rt' suf vs (by simpa using hl) hnd.2 (pre ++ [(f.name, v)]) post (by
+      intro g hg
+      rw [has_append, hpre g (by simp [hg])]
+      have : f.name ≠ g.name := fun e => hnd.1 (e ▸ List.mem_map_of_mem (f := (·.name)) hg)
+      simpa using this)
+    have h4 : pre ++ pairsOf (f.name :: suf.map (·.name)) (v :: vs) ++ post =
+        (pre ++ [(f.name, v)]) ++ pairsOf (suf.map (·.name)) vs ++ post := by simp [pairsOf]
+    simp only [finishFields, List.map_cons, hget, mkKvs]
+    rw [h4, ih]
+
+theorem flatTake_all (inner : List FieldDec) : (ns : List Bytes) → (vs : List SVal) →
+    (∀ n ∈ ns, (findField inner n).isSome = true) → flatTake inner (cKvs ns vs) = cKvs ns vs
+  | [], _, _ => by simp [cKvs, flatTake]
+  | _ :: _, [], _ => by simp [cKvs, flatTake]
+  | n :: ns, v :: vs, h => by
+    simp [cKvs, flatTake, h n (by simp), flatTake_all inner ns vs (fun m hm => h m (by simp [hm]))]
+
+
+theorem sers_mkKvs_len : (ns : List Bytes) → (vs : List SVal) → ns.length = vs.length → (∀ n ∈ ns, nameOk n = true) →
+    ns.length ≤ (sers (mkKvs ns vs)).length
+  | [], [], _, _ => by simp
+  | [], _ :: _, h, _ => by simp at h
+  | _ :: _, [], h, _ => by simp at h
+  | n :: ns, v :: vs, hl, hok => by
+    obtain ⟨b, tl, hb, _⟩ := str_head n (hok n (by simp))
+    have := sers_mkKvs_len ns vs (by simpa using hl) (fun m hm => hok m (by simp [hm]))
+    simp only [mkKvs, sers, ser, List.length_append, List.length_cons, hb]
+    omega
+
+theorem findField_isSome (fs : List FieldDec) (n : Bytes) (h : n ∈ fs.map (·.name)) : (findField fs n).isSome = true := by
+  induction fs with
+  | nil => simp at h
+  | cons f fs ih =>
+    rw [findField_cons]
+    by_cases e : f.name = n
+    · simp [e]
+    · have : (f.name == n) = false := by simpa using e
+      simp only [List.map_cons, List.mem_cons] at h
+      rcases h with h | h
+      · exact absurd h.symm e
+      · simp [this, ih h]
+
+/-- **flattened structs**: the member's fields go through the buffer and come back. -/
+theorem flat_rt (preN : List Bytes) (preV : List SVal) (preT : List SType) (inN : List Bytes) (inV : List SVal)
+    (inT : List SType) (postN : List Bytes) (postV : List SVal) (postT : List SType)
+    (hpre : HasAll preV preT) (hin : HasAll inV inT) (hpost : HasAll postV postT)
+    (hl1 : preN.length = preT.length) (hl2 : inN.length = inT.length) (hl3 : postN.length = postT.length)
+    (hnd : (preN ++ inN ++ postN).Nodup) (hok : ∀ n ∈ preN ++ inN ++ postN, nameOk n = true)
+    (hg : cgoods inT true = true) (rest : Bytes) :
+    de (.flat preN preT inN inT postN postT) (ser (.map false (mkKvs (preN ++ inN ++ postN) (preV ++ inV ++ postV))) ++ rest) =
+      .ok (.map false (mkKvs (preN ++ inN ++ postN) (preV ++ inV ++ postV))) rest := by
+  have hv1 : preN.length = preV.length := by rw [hl1, hasAll_length hpre]
+  have hv2 : inN.length = inV.length := by rw [hl2, hasAll_length hin]
+  have hv3 : postN.length = postV.length := by rw [hl3, hasAll_length hpost]
+  -- names
+  have hnd' : (preN ++ (inN ++ postN)).Nodup := by simpa [List.append_assoc] using hnd
+  rw [List.nodup_append] at hnd'
+  obtain ⟨hndPre, hndIP, hdisj1⟩ := hnd'
+  rw [List.nodup_append] at hndIP
+  obtain ⟨hndIn, hndPost, hdisj2⟩ := hndIP
+  have hdPrePost : ∀ a ∈ preN, ∀ b ∈ postN, a ≠ b := fun a ha b hb => hdisj1 a ha b (by simp [hb])
+  have hdPreIn : ∀ a ∈ preN, ∀ b ∈ inN, a ≠ b := fun a ha b hb => hdisj1 a ha b (by simp [hb])
+  have hdInPost : ∀ a ∈ inN, ∀ b ∈ postN, a ≠ b := hdisj2
+  have hokPre : ∀ n ∈ preN, nameOk n = true := fun n hn => hok n (by simp [hn])
+  have hokIn : ∀ n ∈ inN, nameOk n = true := fun n hn => hok n (by simp [hn])
+  have hokPost : ∀ n ∈ postN, nameOk n = true := fun n hn => hok n (by simp [hn])
+  -- the decoders
+  let preD := fieldDecs preN preT
+  let postD := fieldDecs postN postT
+  let direct := preD ++ postD
+  let inner := fieldCs inN inT true
+  have hnPre : preD.map (·.name) = preN := fieldDecs_names preN preT hl1
+  have hnPost : postD.map (·.name) = postN := fieldDecs_names postN postT hl3
+  have hnIn : inner.map (·.name) = inN := fieldCs_names inN inT true hl2
+  have hnDirect : direct.map (·.name) = preN ++ postN := by simp [direct, hnPre, hnPost]
+  have hndDirect : (direct.map (·.name)).Nodup := by
+    rw [hnDirect, List.nodup_append]; exact ⟨hndPre, hndPost, hdPrePost⟩
+  have hInNone : ∀ n ∈ inN, findField direct n = none := by
+    intro n hn
+    apply findField_none
+    rw [hnDirect]
+    intro hm
+    rcases List.mem_append.mp hm with h | h
+    · exact hdPreIn n h n hn rfl
+    · exact hdInPost n hn n h rfl
+  have hPreSome : ∀ n ∈ preN, (findField direct n).isSome = true := fun n hn =>
+    findField_isSome direct n (by rw [hnDirect]; simp [hn])
+  have hPostSome : ∀ n ∈ postN, (findField direct n).isSome = true := fun n hn =>
+    findField_isSome direct n (by rw [hnDirect]; simp [hn])
+  -- per-entry read-back
+  have hrtPre : FlatRt direct preN preV := by
+    have := flatRt_direct direct preD hndDirect (fun f hf => by simp [direct, hf]) preV
+      (by rw [fieldDecs_decs preN preT hl1]; exact roundtrip_all hpre)
+    rwa [hnPre] at this
+  have hrtPost : FlatRt direct postN postV := by
+    have := flatRt_direct direct postD hndDirect (fun f hf => by simp [direct, hf]) postV
+      (by rw [fieldDecs_decs postN postT hl3]; exact roundtrip_all hpost)
+    rwa [hnPost] at this
+  have hrtIn : FlatRt direct inN inV := flatRt_other direct inN inV hv2 hInNone (hasAll_ok hin)
+  have hrt : FlatRt direct (preN ++ inN ++ postN) (preV ++ inV ++ postV) :=
+    flatRt_append direct _ _ _ _ (flatRt_append direct _ _ _ _ hrtPre hrtIn) hrtPost
+  -- what the loop leaves
+  have hlenAll : (preN ++ inN ++ postN).length = (preV ++ inV ++ postV).length := by simp; omega
+  have hdp : dPairs direct (preN ++ inN ++ postN) (preV ++ inV ++ postV) = pairsOf preN preV ++ pairsOf postN postV := by
+    rw [dPairs_append direct (preN ++ inN) (preV ++ inV) postN postV (by simp; omega),
+      dPairs_append direct preN preV inN inV hv1, (dPairs_direct direct preN preV hPreSome).1,
+      (dPairs_other direct inN inV hInNone).1, (dPairs_direct direct postN postV hPostSome).1]
+    simp
+  have hcc : cColl direct (preN ++ inN ++ postN) (preV ++ inV ++ postV) = cKvs inN inV := by
+    rw [cColl_append direct (preN ++ inN) (preV ++ inV) postN postV (by simp; omega),
+      cColl_append direct preN preV inN inV hv1, (dPairs_direct direct preN preV hPreSome).2,
+      (dPairs_other direct inN inV hInNone).2, (dPairs_direct direct postN postV hPostSome).2]
+    simp
+  have hfuel := sers_mkKvs_len (preN ++ inN ++ postN) (preV ++ inV ++ postV) hlenAll hok
+  have hfuel2 : (preN ++ inN ++ postN).length + 1 ≤
+      (sers (mkKvs (preN ++ inN ++ postN) (preV ++ inV ++ postV)) ++ 0xff :: rest).length + 1 := by
+    have : (sers (mkKvs (preN ++ inN ++ postN) (preV ++ inV ++ postV)) ++ 0xff :: rest).length =
+        (sers (mkKvs (preN ++ inN ++ postN) (preV ++ inV ++ postV))).length + (rest.length + 1) := by
+      rw [List.length_append, List.length_cons]
+    omega
+  have hloop := flatLoop_rt direct (preN ++ inN ++ postN) (preV ++ inV ++ postV) hrt hnd hok
+    ((sers (mkKvs (preN ++ inN ++ postN) (preV ++ inV ++ postV)) ++ 0xff :: rest).length + 1) [] [] rest
+    hfuel2 (by simp [Found.has])
+  rw [hdp, hcc] at hloop
+  simp only [List.nil_append] at hloop
+  -- after the loop
+  have hfinPre : finishFields preD (pairsOf preN preV ++ pairsOf postN postV) = some (mkKvs preN preV) := by
+    have hlenD : preD.length = preV.length := by
+      have := congrArg List.length hnPre
+      simp only [List.length_map] at this
+      omega
+    have := finish_rt' preD preV hlenD (by rw [hnPre]; exact hndPre) [] (pairsOf postN postV)
+      (by simp [Found.has])
+    rw [hnPre] at this
+    simpa using this
+  have hfinPost : finishFields postD (pairsOf preN preV ++ pairsOf postN postV) = some (mkKvs postN postV) := by
+    have hlenD : postD.length = postV.length := by
+      have := congrArg List.length hnPost
+      simp only [List.length_map] at this
+      omega
+    have := finish_rt' postD postV hlenD (by rw [hnPost]; exact hndPost) (pairsOf preN preV) []
+      (by
+        intro f hf
+        apply pairsOf_has_false
+        intro hm
+        have : f.name ∈ postN := by rw [← hnPost]; exact List.mem_map_of_mem (f := (·.name)) hf
+        exact hdPrePost f.name hm f.name this rfl)
+    rw [hnPost] at this
+    simpa using this
+  have hinner : cStructMap inner (flatTake inner (cKvs inN inV)) = .ok (mkKvs inN inV) := by
+    rw [flatTake_all inner inN inV (fun n hn => findField_isSome inner n (by rw [hnIn]; exact hn))]
+    have := cStructMap_rt inner (by rw [hnIn]; exact hndIn) inV
+      (by rw [show inner.map (·.fromC) = fromCs inT true from fieldCs_fromC inN inT true hl2]; exact fromC_all hin true hg)
+    rwa [hnIn] at this
+  have hres : mkKvs preN preV ++ mkKvs inN inV ++ mkKvs postN postV = mkKvs (preN ++ inN ++ postN) (preV ++ inV ++ postV) := by
+    rw [mkKvs_append (preN ++ inN) (preV ++ inV) postN postV (by simp; omega), mkKvs_append preN preV inN inV hv1]
+  -- assemble (the concatenated lists are made opaque so that nothing re-associates them)
+  have hml : mapLoop (flatStep (fieldDecs preN preT ++ fieldDecs postN postT)) none ([], [])
+      (sers (mkKvs (preN ++ inN ++ postN) (preV ++ inV ++ postV)) ++ 0xff :: rest) =
+      .ok (pairsOf preN preV ++ pairsOf postN postV, cKvs inN inV) rest := hloop
+  clear hloop hfuel2 hfuel hdp hcc hrt hlenAll
+  generalize preN ++ inN ++ postN = ns at *
+  generalize preV ++ inV ++ postV = vs at *
+  simp only [de, ser, Bool.false_eq_true, if_false, Enc.beginMap, Enc.end, List.cons_append, List.nil_append,
+    List.append_assoc]
+  unfold deFlatBody
+  rw [Dec.bind_ok _ _ _ _ _ (C04.map_indef _), Dec.bind_ok _ _ _ _ _ hml]
+  dsimp only
+  rw [hfinPre, hfinPost]
+  dsimp only
+  rw [hinner]
+  simp only [liftC]
+  rw [Dec.bind_run]
+  simp only [Dec.pure_run]
+  rw [hres]
+
+
+/-! ## 9. the full statement outside the two known-finding classes -/
+
+/-- no `char` (K6) and no `()` (K7) at a position that is read through serde's `Content` buffer:
+    members of the flattened struct, fields of internally tagged and of untagged variants
+    (`cgood`); a unit variant of an untagged enum is such a position itself. -/
+def HasTC.good : {v : SVal} → {t : SType} → HasTC v t → Prop
+  | _, _, .plain _ _ _ => True
+  | _, _, .flat _ _ _ _ _ inT _ _ _ _ _ _ _ _ _ _ _ _ => cgoods inT true = true
+  | _, _, .itagUnit .. => True
+  | _, _, .itagStruct _ _ _ _ _ _ ts _ _ _ _ _ _ _ => cgoods ts true = true
+  | _, _, .itagNewtype _ _ _ _ _ _ ts _ _ _ _ _ _ _ => cgoods ts true = true
+  | _, _, .atagUnit .. => True
+  | _, _, .atagNewtype .. => True
+  | _, _, .atagTuple .. => True
+  | _, _, .atagStruct .. => True
+  | _, _, .untaggedUnit .. => False
+  | _, _, .untaggedNewtype _ _ _ t _ _ _ => cgood t false = true
+  | _, _, .untaggedTuple _ _ _ ts _ _ _ _ => cgoods ts false = true
+  | _, _, .untaggedStruct _ _ _ _ ts _ _ _ _ _ _ _ => cgoods ts false = true
+
+theorem cv_tuple (xs : List SVal) : cv (.tuple xs) = .seq (cvs xs) := by simp [cv, cvs, toW, cOfW]
+theorem cv_struct (kvs : List SVal) : cv (.struct kvs) = .map (cvs kvs) := by simp [cv, cvs, toW, cOfW]
+
+/-- **C17 (c), every representation.**  Every value of every type of the family — directly read
+    types, flattened structs, internally tagged, adjacently tagged and untagged enums — whose
+    buffered positions avoid `char` and `()` (`good`; exactly the complement of the known
+    findings K6 / K7) round-trips: `de t (ser v ++ rest) = ok v rest`, i.e. equal value and the
+    deserialiser stops exactly after the item.  `Option` directly in `Option` is excluded by
+    the typing itself. -/
+theorem roundtrip_content : {v : SVal} → {t : SType} → (h : HasTC v t) → h.good → ∀ rest, de t (ser v ++ rest) = .ok v rest
+  | _, _, .plain v t h, _, rest => roundtrip_plain h rest
+  | _, _, .flat preN preV preT inN inV inT postN postV postT hpre hin hpost hl1 hl2 hl3 hnd hok _, hg, rest =>
+    flat_rt preN preV preT inN inV inT postN postV postT hpre hin hpost hl1 hl2 hl3 hnd hok hg rest
+  | _, _, .itagUnit tag names vs n hf ht hn, _, rest => by
+    have := itag_rt tag names vs n .unit [] [] hf rfl (by simp) (by simpa using ht) hn rfl (by decide) (by rfl) rest
+    simpa [mkKvs] using this
+  | _, _, .itagStruct tag names vs n fn vals ts hf hx hl hnd hok hn hlen, hg, rest => by
+    have hlv : fn.length = vals.length := by rw [hl, hasAll_length hx]
+    have hnd' := hnd
+    simp only [List.nodup_cons] at hnd'
+    refine itag_rt tag names vs n (.struct fn ts) fn vals hf hlv hnd hok hn (hasAll_ok hx) hlen ?_ rest
+    have := struct_fromC fn vals ts true hl hnd'.2 (fromC_all hx true hg) true
+    rw [cvs_mkKvs] at this
+    simp [itagC, this, itagKvs]
+  | _, _, .itagNewtype tag names vs n fn vals ts hf hx hl hnd hok hn hlen, hg, rest => by
+    have hlv : fn.length = vals.length := by rw [hl, hasAll_length hx]
+    have hnd' := hnd
+    simp only [List.nodup_cons] at hnd'
+    refine itag_rt tag names vs n (.newtype (.struct fn ts)) fn vals hf hlv hnd hok hn (hasAll_ok hx) hlen ?_ rest
+    have := struct_fromC fn vals ts true hl hnd'.2 (fromC_all hx true hg) true
+    rw [cvs_mkKvs] at this
+    simp [itagC, fromC, this, itagKvs]
+  | _, _, .atagUnit tag content names vs n hf ht hc hne hn, _, rest => (atag_rt tag content names vs n ht hc hne hn rest).1 hf
+  | _, _, .atagNewtype tag content names vs n x t hf hx ht hc hne hn, _, rest =>
+    (atag_rt tag content names vs n ht hc hne hn rest).2.1 x t hf hx
+  | _, _, .atagTuple tag content names vs n xs ts hf hx hl ht hc hne hn, _, rest =>
+    (atag_rt tag content names vs n ht hc hne hn rest).2.2.1 xs ts hf hx hl
+  | _, _, .atagStruct tag content names vs n fn vals ts hf hx hl hnd hok hlen ht hc hne hn, _, rest =>
+    (atag_rt tag content names vs n ht hc hne hn rest).2.2.2 fn vals ts hf hx hl hnd hok hlen
+  | _, _, .untaggedUnit _ _ _ _, hg, _ => by cases hg
+  | _, _, .untaggedNewtype vs i x t hi hx hat, hg, rest =>
+    untagged_rt vs i (.newtype t) x hi (hasT_ok hx) hat (by simp only [untaggedC]; exact fromC_rt hx false hg) rest
+  | _, _, .untaggedTuple vs i xs ts hi hx hl hat, hg, rest =>
+    untagged_rt vs i (.tuple ts) (.tuple xs) hi (hasT_ok (.tuple xs ts hx hl)) hat
+      (by simp [untaggedC, cv_tuple, cAll_rt _ xs (fromC_all hx false hg)]) rest
+  | _, _, .untaggedStruct vs i fn vals ts hi hx hl hnd hok hlen hat, hg, rest =>
+    untagged_rt vs i (.struct fn ts) (.struct (mkKvs fn vals)) hi (hasT_ok (.struct fn vals ts hx hl hnd hok hlen)) hat
+      (by simp [untaggedC, cv_struct, struct_fromC fn vals ts false hl hnd (fromC_all hx false hg) false]) rest
+
+
+/-- **what is proved of the full statement** (`roundtrip_statement`, which is false because of K6
+    and K7): it holds for every value of every representation whose buffered positions avoid
+    `char` and `()` — `HasTC.good`, the exact complement of the two known-finding classes.
+    What is missing is therefore only what the code does not do.  (Modelled, not verified:
+    serde's derive output and `Content` machinery, of which `de` / `fromC` are transcriptions.) -/
+theorem roundtrip_partial (t : SType) (v : SVal) (rest : Bytes) (h : HasTC v t) (hg : h.good) :
+    de t (ser v ++ rest) = .ok v rest := roundtrip_content h hg rest
+
+/-- the K6 instance is typed but not `good`: the side condition is exactly what fails. -/
+theorem flatChar_not_good : ¬ flatCharHasTC.good := by
+  simp [flatCharHasTC, HasTC.good, cgoods, cgood]
 
 end Minicbor.C17
